@@ -20,7 +20,10 @@ RULE = ('conn arm: 2-3 connections on a DB over FileStorage (simulated '
         'disk), DemoStorage or MappingStorage, their transaction steps '
         '(begin, modify, add references, commit, abort) interleaved by '
         'seed so that pairs and chains of writers start from the same '
-        'revision (also commits that leave the state unchanged); classes with a recording deterministic resolver, none, '
+        'revision (also commits that leave the state unchanged, and '
+        'writers producing equal states; also under ZODB\'s HexStorage '
+        'record-transforming wrapper); classes with a recording '
+        'deterministic resolver, none, '
         'a raising one and one that raises ConflictError; states hold '
         'strong references (oid+class and bare-oid formats) and weak '
         'references; oracle: the stored revision decodes to exactly '
